@@ -19,8 +19,10 @@ func pickS(opts ...string) string { return opts[verifChoice(len(opts))] }
 func c11Program() (doc string, ghosts int) {
 	userX := verifChoice(2) == 1
 	groupX := verifChoice(2) == 1
+	docX := verifChoice(2) == 1
 	members := pickS("User[]", "(User | SubjectSet<Group, \"members\">)[]")
-	parents := pickS("Group[]", "SubjectSet<Group, \"members\">[]", "(User | Group)[]", "SubjectSet<Group, \"ghost\">[]", "Ghost[]")
+	// (Doc[] and (User | Doc)[]: a relation typed with its own namespace)
+	parents := pickS("Group[]", "SubjectSet<Group, \"members\">[]", "(User | Group)[]", "SubjectSet<Group, \"ghost\">[]", "Ghost[]", "Doc[]", "(User | Doc)[]")
 	if strings.Contains(parents, "ghost") || strings.Contains(parents, "Ghost") {
 		ghosts++
 	}
@@ -56,7 +58,7 @@ func c11Program() (doc string, ghosts int) {
 	if groupX {
 		doc += "    x: User[]\n"
 	}
-	doc += "  }\n}\nclass Doc implements Namespace {\n  related: {\n    parents: " + parents + "\n    viewers: User[]\n  }\n" +
+	doc += "  }\n}\nclass Doc implements Namespace {\n  related: {\n    parents: " + parents + "\n    viewers: User[]\n" + map[bool]string{true: "    x: User[]\n", false: ""}[docX] + "  }\n" +
 		"  permits = {\n    edit: (ctx) => this.related.viewers.includes(ctx.subject),\n    view: (ctx) => " + body + ",\n  }\n}\n"
 	return doc, ghosts
 }
